@@ -1898,6 +1898,112 @@ def _bip_text(fmt, l, r, bits, order, flips):
     return '\n'.join(out) + '\n', E
 
 
+ORDERS4 = [[1, 2, 3, 4], [3, 1, 4, 2], [4, 3, 2, 1], [2, 4, 1, 3]]
+IDSETS = [[1, 2, 3, 4], [20, 5, 11, 7], [0, 1, 2, 3], [10, 9, 100, 8]]
+
+
+def _simple_handwritten(fi, oi, ii, bits, directed, edges_first):
+    """hand-written GML / dot with integer node ids declared in any order (or, in dot, introduced by the edge statements):
+    vertices are numbered by increasing id, as documented; edges follow the ids"""
+    fmt = ['gml', 'dot'][fi]
+    ids = IDSETS[ii]
+    rank = {v: i + 1 for i, v in enumerate(sorted(ids))}
+    decl = [ids[k - 1] for k in ORDERS4[oi]]
+    P = [(a, b) for a in range(4) for b in range(a + 1, 4)]
+    E = [(ids[a], ids[b]) for k, (a, b) in enumerate(P) if bits >> k & 1]
+    if directed:
+        E = [(a, b) if rank[a] < rank[b] else (b, a) for (a, b) in E]
+    else:
+        E = [(a, b) if k % 2 else (b, a) for k, (a, b) in enumerate(E)]
+    if fmt == 'gml':
+        out = ['graph [', '  directed %d' % (1 if directed else 0)]
+        for v in decl:
+            out.append('  node [ id %d label "%d" ]' % (v, v))
+        for a, b in E:
+            out.append('  edge [ source %d target %d ]' % (a, b))
+        out.append(']')
+    else:
+        out = ['digraph G {' if directed else 'graph G {']
+        arrow = ' -> ' if directed else ' -- '
+        if edges_first:
+            for a, b in E:
+                out.append('  %d%s%d;' % (a, arrow, b))
+            for v in decl:
+                out.append('  %d;' % v)
+        else:
+            for v in decl:
+                out.append('  %d;' % v)
+            for a, b in E:
+                out.append('  %d%s%d;' % (a, arrow, b))
+        out.append('}')
+    text = '\n'.join(out) + '\n'
+    typ = 'dag' if directed else 'simple'
+    G = readGraph(io.StringIO(text), typ, fmt)
+    want = sorted((rank[a], rank[b]) for a, b in E) if directed else sorted((min(rank[a], rank[b]), max(rank[a], rank[b])) for a, b in E)
+    return _views(G, typ) == (4, want)
+
+
+def h_e_simple_handwritten(fi: int, oi: int, ii: int, bits: int, directed: bool, edges_first: bool) -> bool:
+    """
+    pre: 0 <= fi <= 1 and 0 <= oi <= 3 and 0 <= ii <= 3 and 0 <= bits <= 7
+    post: _
+    """
+    return untraced(_simple_handwritten, pick(fi, 0, 1), pick(oi, 0, 3), pick(ii, 0, 3), [0, 5, 21, 63, 38, 9, 50, 12][pick(bits, 0, 7)], pickb(directed), pickb(edges_first))
+
+
+def _from_file_named(typ_i, fmt_i, name_i, explicit):
+    """Graph.from_file / DirectedGraph.from_file / BipartiteGraph.from_file given a file NAME: an explicit format wins over the
+    extension, without one the extension decides"""
+    import cnfgen.graphs as GG
+    typ = ['simple', 'digraph', 'bipartite'][typ_i]
+    fmt = FORMATS[typ][fmt_i]
+    if typ == 'simple':
+        G = Graph(3)
+        G.add_edge(1, 3)
+        cls = Graph
+    elif typ == 'digraph':
+        G = DirectedGraph(3)
+        G.add_edge(1, 3)
+        G.add_edge(2, 3)
+        cls = DirectedGraph
+    else:
+        G = BipartiteGraph(2, 3)
+        G.add_edge(1, 3)
+        G.add_edge(2, 1)
+        cls = BipartiteGraph
+    buf = io.StringIO()
+    writeGraph(G, buf, typ, fmt)
+    other = [f for f in FORMATS[typ] if f != fmt][0]
+    name = ['graph.' + fmt, 'graph.txt', 'graph', 'graph.' + other][name_i]
+    files = {name: buf.getvalue()}
+
+    def fake_open(nm, mode='r', *a, **k):
+        if nm not in files:
+            raise FileNotFoundError(2, 'No such file or directory', nm)
+        f = io.StringIO(files[nm])
+        f.name = nm
+        return f
+    GG.open = fake_open
+    try:
+        if explicit:
+            H = cls.from_file(name, fmt)
+        elif name_i == 0:
+            H = cls.from_file(name)
+        else:
+            return True                      # nothing names the format: outside the claim
+    finally:
+        del GG.open
+    return _views(H, typ) == _views(G, typ)
+
+
+def h_e_from_file_named(typ_i: int, fmt_i: int, name_i: int, explicit: bool) -> bool:
+    """
+    pre: 0 <= typ_i <= 2 and 0 <= fmt_i <= 3 and 0 <= name_i <= 3
+    post: _
+    """
+    return untraced(_from_file_named, pick(typ_i, 0, 2), pick(fmt_i, 0, 3), pick(name_i, 0, 3), pickb(explicit))
+
+
 def _bip_handwritten(fi, l, r, bits, order, flips):
     fmt = ['gml', 'dot'][fi]
     text, E = _bip_text(fmt, l, r, bits, order, flips)
